@@ -623,6 +623,107 @@ def cmp5(p, res):
             res.bad("CMP-5", fc[0].pretty, "row-plaintext", "row plaintext preparation differs between %s and %s: %s vs %s" % (std, cmpn, a, b), site=fc[0].where())
 
 
+INFOS_TRAITS = ("LWEInfos", "GLWEInfos", "GGLWEInfos", "GGSWInfos")
+CONV = ("into", "from", "as_usize", "as_u32", "clone", "deref", "index", "borrow", "as_ref")
+
+
+def accessor_shape(f):
+    """names of the non-conversion calls an infos accessor makes, in block order"""
+    return tuple(n for n in ((f.callee_def(t) or {}).get("n") for bi, t in f.calls()) if n and n not in CONV)
+
+
+def cmp6(p, res):
+    """a compressed layout reports the same layout parameters as its standard sibling: each infos accessor either delegates to the same-named accessor of
+    the wrapped object, or reads a stored field / data dimension, or is computed from the same accessors as the standard sibling's"""
+    acc = {}
+    for f in p.lib_fns():
+        if f.kind != "AssocFn" or not f.impl_uid or not f.trait_item:
+            continue
+        parts = f.trait_item.split("::")
+        if len(parts) < 2 or parts[-2] not in INFOS_TRAITS:
+            continue
+        # self type name: "<path::Type<D> as Trait>::m"
+        head = f.pretty.split(" as ")[0].lstrip("<")
+        ty = head.split("<")[0].split("::")[-1]
+        acc.setdefault(ty, {})[f.name] = f
+    n = 0
+    for ty in sorted(acc):
+        if not ty.endswith("Compressed"):
+            continue
+        std = acc.get(ty[: -len("Compressed")])
+        if std is None:
+            continue
+        for m, f in sorted(acc[ty].items()):
+            if m not in std:
+                continue
+            n += 1
+            a, b = accessor_shape(f), accessor_shape(std[m])
+            data_dims = ("n", "size", "rows", "cols", "cols_in", "cols_out")
+            if a == (m,) or a == b or all(x in data_dims for x in a):
+                res.ok("CMP-6", {"type": ty, "accessor": m, "shape": list(a)})
+            else:
+                res.bad("CMP-6", f.pretty, "accessor-disagrees:%s" % m,
+                        "%s::%s is computed from %s while the standard layout computes it from %s (and it is not a plain delegation to the wrapped object's %s): receivers "
+                        "sized from the compressed object's infos do not match the object" % (ty, m, list(a), list(b), m), site=f.where())
+    res.floor("CMP-6", "compressed infos accessors with a standard sibling", n, 60)
+
+
+def cmp7(p, res):
+    """matrix expanders (a loop of decompress_glwe over rows and columns) compare the digit size of receiver and compressed operand: dsize is not part of
+    the per-cell layout that decompress_glwe asserts, and a receiver with another dsize would silently get cells gadget-scaled for the wrong digit size"""
+    n = 0
+    for f in p.lib_fns():
+        if f.kind != "AssocFn" or not f.uid.startswith("poulpy_core::layouts::compressed") or not f.name.startswith("decompress_"):
+            continue
+        g = CFG(f)
+        cells = [(bi, t) for bi, t in f.calls() if (f.callee_def(t) or {}).get("n") == "decompress_glwe" and g.innermost_loop(bi) is not None]
+        if not cells:
+            continue
+        n += 1
+        flow = Flow(f, transparent=ACCESS + ("to_mut", "to_ref"))
+        ds = {}
+        for bi, t in f.calls():
+            if (f.callee_def(t) or {}).get("n") == "dsize" and t["a"]:
+                for r in flow.op_roots(t["a"][0]):
+                    if r[0] == "param":
+                        ds.setdefault(bi, set()).add(r[1])
+        good = False
+        for bi, t in f.calls():
+            if (f.callee_def(t) or {}).get("n") in ("eq", "ne") and len(t["a"]) == 2:
+                sides = []
+                for a in t["a"]:
+                    ps = set()
+                    for r in flow.op_roots(a):
+                        if r[0] == "call" and r[1] in ds:
+                            ps |= ds[r[1]]
+                    sides.append(ps)
+                if sides[0] and sides[1] and sides[0] != sides[1]:
+                    good = True
+        if good:
+            res.ok("CMP-7", {"expander": f.pretty, "compares": "res.dsize() with other.dsize()"})
+        else:
+            res.bad("CMP-7", f.pretty, "dsize-not-compared",
+                    "%s expands every cell with decompress_glwe but never compares the receiver's dsize with the compressed object's: a receiver allocated with another "
+                    "digit size is filled without complaint and decrypts to different plaintexts" % f.pretty, site=f.where())
+    res.floor("CMP-7", "matrix expanders", n, 2)
+
+
+def cmp8(p, res):
+    """every decompression trait of the compressed layouts is implemented for Module (the traits carry the expander as a provided method; without an impl the
+    layout cannot be expanded at all)"""
+    n = 0
+    for u, t in sorted(p.traits.items()):
+        if not (u.startswith("poulpy_core::layouts::compressed::") and u.endswith("Decompress")):
+            continue
+        n += 1
+        ims = [im for im in p.impls if im["trait"] == u and im["self"].startswith("poulpy_hal::layouts::Module<")]
+        if ims:
+            res.ok("CMP-8", {"trait": u, "impl": ims[0]["self"]})
+        else:
+            res.bad("CMP-8", u, "no-module-impl", "%s has no impl for Module<B>: its provided expander can never be called" % u)
+    res.floor("CMP-8", "decompression traits", n, 11)
+
+
 def run(res, tier):
     res.level = "other"
     res.explanation = ("Structural agreement of compressor, expander and standard encryption decided on MIR: same kernel with the compressed flag constant; the seed stored for a cell "
@@ -635,6 +736,9 @@ def run(res, tier):
     res.rule("CMP-3", "seed store index polynomial == accessor seed index polynomial under the (row, col) substitution of the kernel's result operand")
     res.rule("CMP-4", "expander: one Source::new(other.seed); columns filled by for_each over the plain Range 1..rank+1 with column = loop variable and radix = other.base2k; kernel mask loop has the same shape")
     res.rule("CMP-5", "vec_znx_add_scalar_assign limb/column polynomials, normalisation calls and clearing of the row plaintext (primitive and loop depth) agree between standard and compressed matrix encryptors")
+    res.rule("CMP-6", "each infos accessor of a compressed layout delegates to the same accessor of the wrapped object, reads data dimensions, or has the standard sibling's shape")
+    res.rule("CMP-7", "matrix expanders compare res.dsize() with other.dsize() before expanding cells")
+    res.rule("CMP-8", "every *Decompress trait of poulpy_core::layouts::compressed has an impl for Module<B>")
     res.assumptions = ["kernel arithmetic (C01) and cross-backend bits (C10) are not decided here", "accessor atoms are compared by name (one compressed object in scope)"]
     cfgs = ["avx-dev"] if tier == "quick" else ["avx-dev", "ref-dev"]
     for cfg in cfgs:
@@ -646,6 +750,9 @@ def run(res, tier):
         cmp3(p, res)
         cmp4(p, res)
         cmp5(p, res)
+        cmp6(p, res)
+        cmp7(p, res)
+        cmp8(p, res)
         # compression followed by serialisation and deserialisation: compressed layouts restore every serialised field (seeds included)
         from . import c18
         rd, wr = c18.readers_writers(p)
